@@ -113,6 +113,8 @@ pub enum Op {
     Yield,
     Await(usize, i128, Ordering),
     IfEq(usize, Ret, usize),
+    /// drop the sender of a channel (no event: loom is not told)
+    DropTx(usize),
     Send(usize, i128),
     Recv(usize),
     TryRecv(usize),
@@ -310,6 +312,7 @@ fn parse_op(t: &[&str]) -> Option<Op> {
         ["recv", q] => Op::Recv(n(q)?),
         ["tryrecv", q] => Op::TryRecv(n(q)?),
         ["droprx", q] => Op::DropRx(n(q)?),
+        ["droptx", q] => Op::DropTx(n(q)?),
         ["anew", h] => Op::ANew(n(h)?),
         ["aclone", h, h2] => Op::AClone(n(h)?, n(h2)?),
         ["adrop", h] => Op::ADrop(n(h)?),
